@@ -1,5 +1,6 @@
 #define _POSIX_C_SOURCE 200809L  /* For mkdtemp */
 #include "nanolang.h"
+#include <limits.h>
 #include "module_builder.h"
 #include "stdlib_runtime.h"
 #include <sys/stat.h>
@@ -574,6 +575,13 @@ static ASTNode *load_module_internal(const char *module_path, Environment *env, 
             return cached_ast;
         }
         
+        /* A module that is in the cache without an AST is being loaded further up the call chain
+         * (an import cycle) or failed to load: do not load it again - loading it again recursed
+         * until the stack overflowed.  process_imports tells the two cases apart. */
+        if (is_module_cached(module_path)) {
+            return NULL;
+        }
+
         /* Mark module as loading to prevent circular imports */
         cache_module(module_path);
     }
@@ -590,9 +598,16 @@ static ASTNode *load_module_internal(const char *module_path, Environment *env, 
     long size = ftell(file);
     fseek(file, 0, SEEK_SET);
     
-    char *source = malloc(size + 1);
-    fread(source, 1, size, file);
-    source[size] = '\0';
+    /* A directory can be opened but not measured or read (ftell gives -1 or LONG_MAX) */
+    char *source = (size < 0 || size >= LONG_MAX) ? NULL : malloc((size_t)size + 1);
+    if (!source) {
+        fprintf(stderr, "Error: Could not read module file '%s'\n", module_path);
+        fclose(file);
+        mark_module_failed(module_path);
+        return NULL;
+    }
+    size_t got = fread(source, 1, (size_t)size, file);
+    source[got] = '\0';
     fclose(file);
     
     /* Tokenize */
